@@ -297,15 +297,20 @@ def lookupRead (l : List (Nat × Option Bytes)) (id : Nat) : Option (Option Byte
 def lookupDone (l : List (Nat × Nat)) (cid : Nat) : Option Nat :=
   (l.find? (fun p => p.1 == cid)).map (·.2)
 
-/-- `connectConsumer(consumer, expected)` called from a script; `fc`: the consumer is flow-controlled -/
+/-- `connectConsumer` from `self._consumer = consumer` on (the producer has been registered): counters, the
+    Deferred, the kick for `expected == 0`, then the drain loop and the caller attaching its callback -/
+def finishAttach (a : App) (ex : Option Nat) (fc : Bool) (s rest : List Act) : App × List Frame :=
+  let k : Consumer := { cid := a.nextCid, written := 0, expected := ex, cb := none }
+  let a1 := { a with consumer := some k, nextCid := a.nextCid + 1, fcConsumer := fc }
+  match (if ex = some 0 then writeToConsumer a1 k [] true else (a1, [])) with
+  | (a2, fs) => (a2, fs ++ [.drain, .attachCons k.cid s, .script rest])
+
+/-- `connectConsumer(consumer, expected)` called from a script; `fc`: the consumer is flow-controlled.
+    `consumer.registerProducer(self, True)` comes *before* `self._consumer` is set. -/
 def attachConsumer (a : App) (ex : Option Nat) (fc : Bool) (s rest : List Act) : App × List Frame :=
   match a.consumer with
   | some _ => (a.emit [.raised .runtimeError], [])
-  | none =>
-    let k : Consumer := { cid := a.nextCid, written := 0, expected := ex, cb := none }
-    let a1 := { a with consumer := some k, nextCid := a.nextCid + 1, fcConsumer := fc, log := a.log ++ [.reg] }
-    match (if ex = some 0 then writeToConsumer a1 k [] true else (a1, [])) with
-    | (a2, fs) => (a2, fs ++ [.drain, .attachCons k.cid s, .script rest])
+  | none => finishAttach { a with log := a.log ++ [.reg] } ex fc s rest
 
 /-- One step of the top activation record.  Result: the new state and the frames that replace the
     popped one (first = innermost).  Python's control flow, frame by frame:
@@ -459,6 +464,48 @@ def run (E : Env) (c : Conn) (ops : List Op) : Conn := ops.foldl (step E) c
 /-- a byte stream arriving in chunks -/
 def feed (E : Env) (c : Conn) (chunks : List Bytes) : Conn := run E c (chunks.map .data)
 
+/-! ## a transport that really holds data back while paused
+
+`pauseProducing()` makes the transport keep what arrives; `transport.resumeProducing()` hands the held chunks to
+`dataReceived` *synchronously* (in-memory / loopback transports do; an exception leaving `dataReceived` is logged by
+the transport and the next chunk follows).  That re-enters the connection from wherever the resume came from.
+Modelled for the two places where the connection is not in the middle of anything else: the application resuming
+at top level, and `connectConsumer` (at top level) with a consumer that says "ready" by calling
+`producer.resumeProducing()` from its `registerProducer()` — at which point `_consumer` is not yet set, so what
+the held bytes yield is queued (or read) *before* the consumer gets the older queued records. -/
+
+structure HConn where
+  c : Conn
+  held : List Bytes
+
+inductive HOp where
+  | op (o : Op)
+  | hold (b : Bytes)                                   -- bytes arrive while the transport is paused
+  | resume                                             -- the application calls `resumeProducing()` (top level)
+  | attachReady (ex : Option Nat) (s : List Act)       -- `connectConsumer` with a consumer that resumes in `registerProducer`
+
+/-- the transport delivers what it held, chunk by chunk -/
+def deliverHeld (E : Env) (c : Conn) (held : List Bytes) : Conn :=
+  held.foldl (fun c b =>
+    match dataReceived E c b with
+    | (c', none) => c'
+    | (c', some e) => { c' with app := c'.app.emit [.raised e] }) c
+
+def hstep (E : Env) (h : HConn) : HOp → HConn
+  | .op o => { h with c := step E h.c o }
+  | .hold b => { h with held := h.held ++ [b] }
+  | .resume => { c := deliverHeld E { h.c with app := h.c.app.emit [.tresume] } h.held, held := [] }
+  | .attachReady ex s =>
+    match h.c.app.consumer with
+    | some _ => { h with c := { h.c with app := h.c.app.emit [.raised .runtimeError] } }
+    | none =>
+      -- consumer.registerProducer(self, True) -> producer.resumeProducing() -> the held bytes, *then* self._consumer = …
+      let c2 := deliverHeld E { h.c with app := h.c.app.emit [.reg, .tresume] } h.held
+      match finishAttach c2.app ex false s [] with
+      | (a3, fs) => { c := { c2 with app := settle a3 fs }, held := [] }
+
+def hrun (E : Env) (h : HConn) (ops : List HOp) : HConn := ops.foldl (hstep E) h
+
 /-- `send_record` for each record in turn (stops at the first exception) -/
 def sendMany (E : Env) : Conn → List Bytes → Conn × Option Err
   | c, [] => (c, none)
@@ -569,6 +616,9 @@ send <S|R> <hex pt> <hex sealed>            -> summary      (send_record; regist
 data <S|R> <hex>                            -> summary      (dataReceived)
 call <S|R> <script>                         -> summary      (application code, outside any callback, makes
                                                              these API calls; a callback's own script is nested)
+hold <S|R> <hex>                            -> summary      (bytes the paused transport keeps back)
+resume <S|R>                                -> summary      (top-level resumeProducing(): held chunks are delivered)
+attachready <S|R> <E|n> <script>            -> summary      (connectConsumer with a consumer that resumes in registerProducer)
 lost <S|R> <done|reset|none>                -> summary      (connectionLost(reason): FIN / reset / no argument)
 ```
 summary = `<ok|ExceptionName> st=… buf=<len> sn=… rn=… q=<queued> wait=<ids> cons=<written/expected|-> ev=[new events]`
@@ -604,6 +654,8 @@ structure DrvSt where
   table : List Sealing
   s : Option Conn
   r : Option Conn
+  heldS : List Bytes := []
+  heldR : List Bytes := []
 
 def drvInit : DrvSt := { table := [], s := none, r := none }
 
@@ -707,6 +759,28 @@ def stepLine (s : DrvSt) (line : String) : DrvSt × String :=
     match parseScript sc with
     | some acts => onConn s w (fun c => ({ c with app := appCall c.app acts }, none))
     | none => (s, "bad-op")
+  | ["hold", w, h] =>
+    match fromHex? h, getConn s w with
+    | some b, some c =>
+      let s1 := if w == "S" then { s with heldS := s.heldS ++ [b] } else { s with heldR := s.heldR ++ [b] }
+      (s1, showConn c.app.log.length c none)
+    | _, _ => (s, "bad-op")
+  | ["resume", w] =>
+    let held := if w == "S" then s.heldS else s.heldR
+    let s1 := if w == "S" then { s with heldS := [] } else { s with heldR := [] }
+    onConn s1 w (fun c => ((hstep (drvEnv s.table) { c := c, held := held } .resume).c, none))
+  | ["attachready", w, e, sc] =>
+    let ex? : Option (Option Nat) := if e == "n" then some none else e.toNat?.map some
+    match ex?, parseScript sc with
+    | some ex, some acts =>
+      let held := if w == "S" then s.heldS else s.heldR
+      match getConn s w with
+      | none => (s, "bad-op")
+      | some c =>
+        let h' := hstep (drvEnv s.table) { c := c, held := held } (.attachReady ex acts)
+        let s1 := if w == "S" then { s with heldS := h'.held } else { s with heldR := h'.held }
+        (setConn s1 w h'.c, showConn c.app.log.length h'.c none)
+    | _, _ => (s, "bad-op")
   | ["lost", w, why] =>
     let r? : Option LossReason :=
       if why == "done" then some .done else if why == "reset" then some .reset else if why == "none" then some .none
